@@ -1,6 +1,19 @@
 from .props import HDR, standard
 
+import os
+
 KS = "services/keepstore"
+
+
+def _replace():
+    """VERIF_REPLACE="services/keepstore/handlers.go=/abs/mutated.go,..." substitutes scratch copies of
+    /repo files through the overlay (used only to check that the check has teeth; /repo is never edited)."""
+    out = {}
+    for kv in filter(None, os.environ.get("VERIF_REPLACE", "").split(",")):
+        k, v = kv.split("=", 1)
+        out[k] = v
+    return out or None
+
 FILES = ["ks/zz_verif_ks_common_test.go", "C01/zz_verif_c01_test.go"]
 
 
@@ -10,10 +23,10 @@ def run(ctx):
 
     def stages(ctx, mult, suffix, off):
         ctx.stage("c01" + suffix, KS, "main", FILES, "TestVerifC01$", n * mult, hdr, seed_offset=off, shard=60,
-                  env={"VERIF_STAGE": "c01" + suffix}, timeout=1500)
+                  env={"VERIF_STAGE": "c01" + suffix}, timeout=1500, replace=_replace())
         if ctx.tier == "thorough" and not suffix:
             ctx.stage("c01x", KS, "main", FILES, "TestVerifC01$", 1884, hdr, shard=120,
-                      env={"VERIF_STAGE": "c01x", "VERIF_C01_MODE": "exhaustive"}, timeout=1500)
+                      env={"VERIF_STAGE": "c01x", "VERIF_C01_MODE": "exhaustive"}, timeout=1500, replace=_replace())
     return standard(ctx, "C01", ["model/C01_run.vo"], stages,
                     rule="1-3 Directory volumes (every RO/RW mix, full / unwritable prefix), 1-2 blocks (sizes 0,1,2,63,64,65,100,4096, "
                          "random, an MD5 collision pair, rarely exactly 64 MiB), a corruption pattern per copy, 1-6 GET/HEAD/PUT requests; "
@@ -21,3 +34,12 @@ def run(ctx):
                     assumptions=["block bytes are abstracted to {cid; length}; the digest is the table of MD5 values computed by Go for the contents of the case (theorems hold for every digest function)",
                                  "requests are sent to the handler returned by handler.setup (MakeRESTRouter) through httptest.ResponseRecorder: HTTP framing by net/http is not exercised",
                                  "Touch of a file that was just read successfully is assumed to succeed (no concurrent actor; that race is C04)"])
+
+
+def dev(ctx, n, extra):
+    hdr = HDR.format(imports="model.C01_model model.C01_run") + "Local Open Scope N_scope.\n"
+    from . import core
+    core.coq_make(["model/C01_run.vo"])
+    e = {"VERIF_STAGE": "c01"}
+    e.update(extra)
+    ctx.stage("c01", KS, "main", FILES, "TestVerifC01$", n, hdr, shard=60, env=e, timeout=1500, replace=_replace())
